@@ -16,6 +16,8 @@ import EkwVerif.Lemmas.SchedBound
 import EkwVerif.Lemmas.SchedIdle
 import EkwVerif.Lemmas.SchedTermC
 import EkwVerif.Props.C16
+import EkwVerif.Lemmas.CtrlPresched
+import EkwVerif.Lemmas.CtrlWFCheck
 
 namespace EkwVerif.Ctrl
 
@@ -172,7 +174,15 @@ declared output of a task of the job, a transfer notice names a host of the clus
 requested output. Hence the lookups `ts2component[ds.task]`, `components[..]`, `host2workers[host]`,
 `job.tasks[ds.task].definition.output_schema` and `state.outputs[ds]` in `notify` are defined (no KeyError on unknown
 ids), and `notify`'s "malformed event, expected origin to be WorkerId" cannot fire: in the model the origin of a notice
-without `transmit_idx` is a worker by construction of `Event.pubW` — the executors' side of that is C06/C07. -/
+without `transmit_idx` is a worker by construction of `Event.pubW` — the executors' side of that is C06/C07.
+
+WHAT THIS THEOREM IS (re-audit C03 #1): largely a statement about the ENVIRONMENT model, i.e. about the assumption side. The
+modelled executors announce only what they were commanded (`Env` publishes outputs of dispatched tasks, notices of commanded
+transfers, payloads of commanded fetches) and `takeEvents` cannot forge an event; given that, the theorem's controller-side
+content is that every COMMAND names a worker/host of the cluster and a declared output of a task of the job, and — third
+conjunct — that the controller fetches only requested datasets. It says nothing about what REAL executors send; that real
+events have this shape is sampled by the tie (SimBridge builds every event from a command it received) and is C06/C07's
+subject on the wire. -/
 theorem c03_events_wellformed (f : Sem) (j : Job) (cl : Cluster) (wf : WF j cl) (s : Sys) (hr : Reachable f j cl s) :
     (∀ w ds, Event.pubW w ds ∈ s.allEv → w ∈ cl.ids ∧ ds.task < j.tasks.length ∧ ds.out < j.nOut ds.task) ∧
     (∀ h ds, Event.pubT h ds ∈ s.allEv → h ∈ cl.hosts ∧ ds.task < j.tasks.length ∧ ds.out < j.nOut ds.task) ∧
@@ -195,7 +205,14 @@ C03's crash-freedom for the two lookup sites that the scheduler model (`Model/Sc
 (assign.py, `update_worker2task_distance`: `a` is the task of a dataset on the worker with
 `ts2component[a] == component_id`, `b` a task of that component) and `core.value[t]` (`_assignment_heuristic`: `t` a
 computable task of the component). For the preschedule of every well-formed acyclic job both are defined for all tasks
-of one component (python `nearest_common_descendant`; the `coptrs` fast path is outside, DESIGN §8). -/
+of one component (python `nearest_common_descendant`; the `coptrs` fast path is outside, DESIGN §8).
+
+WHAT THIS THEOREM IS (re-audit C03 #1): a RE-EXPORT of `c16_ncd` and `c16_value`, stated over C16's own job type
+`Presched.Job α β`. There is NO Lean link between `Presched.Job` and the controller model's `Ctrl.Job` / `Comps`: that the
+component map `cm` of the controller theorems is the one `precompute` yields is not proved. It is checked per replayed input:
+the drivers evaluate `wfcCheck job cm` (`Lemmas/CtrlWFCheck.lean`, `wfcCheck_sound`) for the component map the REAL
+`precompute`/`initialize` produced, and C16's own tie compares `Presched.precompute` with the real `precompute`. Counted as a C03
+obligation only as this citation; the two lookup sites are therefore covered by C16 + the tie, not by a theorem about `Ctrl.Job`. -/
 theorem c03_heuristic_tables_total {α β : Type} [DecidableEq α] [DecidableEq β] (job : Presched.Job α β)
     (hw : job.WF) (hd : Presched.IsDag job) :
     ∀ c ∈ (Presched.precompute job).components,
@@ -217,7 +234,9 @@ ever commanded carries exactly the declared outputs of its task; the publish set
 task is that list; and the body of a queued task publishes precisely what its command named (`envRunSpec`) — which is
 therefore everything. A controller that trims `publish` (the TODO at assign.py "trim for only the necessary ones")
 without changing the completion rule leaves the model: its command differs from `actCmds`, and `envRunSpec` would no
-longer announce the trimmed outputs. -/
+longer announce the trimmed outputs. (Re-audit C03 #1: the THIRD conjunct, `envStepP = envRunSpec`, relates two definitions of the
+model's environment to each other — it is model-internal and says nothing about the real executors; the content about the
+controller is in the first two conjuncts.) -/
 theorem c03_publish_complete (f : Sem) (j : Job) (cl : Cluster) (hw : cl.ids.Nodup) (s : Sys) (hr : Reachable f j cl s) :
     (∀ w t pb, Cmd.taskSeq w t pb ∈ s.env.log → pb = j.outputsOf t) ∧
     (∀ t, 1 ≤ s.env.dispatchedE t → s.env.pubOf t = j.outputsOf t) ∧
@@ -383,5 +402,42 @@ example : Reachable exSemO exJobO exClO ((runSteps exSemO exJobO exClO (Sys.init
       | some s1 => simp only [hst] at h; exact ih s1 s' (Reachable.step s s1 st hr hst) h
   exact key exStepsO1 _ _ Reachable.init (Option.eq_some_of_isSome _)
 end
+
+
+/-! ### the hypotheses, discharged or decided (re-audit C01 #1, C03 #1) -/
+
+/-- **The component map `precompute` yields satisfies `WFC`** — the hypothesis `WFC j cm` of every theorem about the
+extended system is not an assumption about a free parameter: for the `JobInstance` a well-formed `Ctrl.Job` stands for
+(`toPresched`, any assignment of positional/keyword sink inputs `key`) the components of C16's `precompute`, numbered as
+`initialize` numbers them (`preComps`), put both ends of every edge into the same component and every task into some component
+(from `c16_partition` and `c16_closed`). -/
+theorem c03_precompute_comps_wellformed (j : Job) (cl : Cluster) (wf : WF j cl) (key : Task → Ds → Presched.Key) :
+    WFC j (preComps j key) :=
+  preComps_wfc j cl wf key
+
+/-- **The static preschedule tables are total — for every job of the controller model** (the statement of
+`c03_heuristic_tables_total` transported along `toPresched`): whatever keys the edges carry, `distance_matrix[a][b]` and
+`value[t]` are defined for all tasks `a`, `b`, `t` of one component of the preschedule of a well-formed `Ctrl.Job`. -/
+theorem c03_heuristic_tables_total_job (j : Job) (cl : Cluster) (wf : WF j cl) (key : Task → Ds → Presched.Key) :
+    ∀ c ∈ (Presched.precompute (toPresched j key)).components,
+      (∀ a ∈ c.nodes, ∀ b ∈ c.nodes, (c.distance a b).isSome = true) ∧ (∀ t ∈ c.nodes, (c.valueOf t).isSome = true) :=
+  c03_heuristic_tables_total (toPresched j key) (toPresched_wf j cl wf key) (toPresched_dag j cl wf key)
+
+/-- **A feasible job always completes — hypotheses decided, component map computed.** `c03_completes` for the component map
+of `precompute`, with `WF` and `Feasible` replaced by the Bool checks the drivers evaluate on every replayed input
+(`wfCheck`, `feasCheck`): no hypothesis is left that is not either computed from the job or decided on it. -/
+theorem c03_completes_checked (f : Sem) (j : Job) (cl : Cluster) (key : Task → Ds → Presched.Key)
+    (hwf : wfCheck j cl = true) (hfeas : feasCheck j cl = true) (x : SysX) (hr : ReachableX f j cl (preComps j key) x) :
+    Inev f j cl (preComps j key) (fun y => y.sys.phase = .finished ∧ y.sys.shutdowns = 1 ∧
+      (∀ t, t < j.tasks.length → y.sys.ctl.doneC t = true ∧ y.sys.env.ran t = true ∧ y.sys.env.dispatchedE t = 1) ∧
+      (∀ ds, ds ∈ j.ext → (y.sys.ctl.outputs ds).isSome = true)) x :=
+  c03_completes f j cl (preComps j key) (wfCheck_sound j cl hwf) (preComps_wfc j cl (wfCheck_sound j cl hwf) key)
+    (feasCheck_sound j cl hfeas) x hr
+
+/-- non-vacuity: the checks hold of the example job (`exJobO`: a 3-output task feeding a second task) and the component map
+computed for it by `precompute` is the one-component map -/
+example : wfCheck exJobO exClO = true ∧ feasCheck exJobO exClO = true := by decide
+example : wfcCheck exJobO (preComps exJobO (fun _ _ => .kw "x")) = true := by decide
+example : (preComps exJobO (fun _ _ => .kw "x")).n = 1 ∧ (preComps exJobO (fun _ _ => .kw "x")).compOf 1 = 0 := by decide
 
 end EkwVerif.Ctrl
